@@ -671,8 +671,8 @@ def main(tier, seed, replay=None):
                     pops.append(load_case(os.path.join(cdir, fn)))
         pops.append(tagdelay_case())
         ncorpus = len(pops)
-    # thorough: 5 batches of 2400 populations (keeps memory flat); quick: one batch of 60
-    nbatches, per_batch = (1, 60) if tier == "quick" else (5, 2400)
+    # thorough: 8 batches of 2400 populations (keeps memory flat); quick: one batch of 60
+    nbatches, per_batch = (1, 60) if tier == "quick" else (8, 2400)
     known, fixed = known_findings(PROP)
     known_ids = {k.get("id") for k in known}
     nviol, nknown, stats = 0, 0, {"searches": 0, "nonempty": 0, "paged": 0, "more": 0, "tie_drift": 0, "model_compared": 0,
